@@ -14,6 +14,43 @@ use crate::{
 
 thread_local! {
     static LAST_PANIC_LOC: RefCell<String> = const { RefCell::new(String::new()) };
+    /// per worker: a small file that names the case this thread is working on and the last panic
+    /// it saw; survives an abort of the process (non-unwinding panic, stack overflow, OOM)
+    static INFLIGHT: RefCell<Option<std::fs::File>> = const { RefCell::new(None) };
+    static PANICS_IN_CASE: std::cell::Cell<u32> = const { std::cell::Cell::new(0) };
+}
+
+/// Open the in-flight file of this worker thread.
+pub fn inflight_open(dir: &std::path::Path, worker: usize) {
+    let _ = std::fs::create_dir_all(dir);
+    if let Ok(f) = std::fs::OpenOptions::new().create(true).write(true).truncate(true).open(dir.join(format!("w{worker}"))) {
+        INFLIGHT.with(|c| *c.borrow_mut() = Some(f));
+    }
+}
+
+fn inflight_write(offset: u64, text: &str, width: usize) {
+    use std::os::unix::fs::FileExt;
+    INFLIGHT.with(|c| {
+        if let Ok(g) = c.try_borrow() {
+            if let Some(f) = g.as_ref() {
+                let mut buf = vec![b' '; width];
+                let b = text.as_bytes();
+                let n = b.len().min(width - 1);
+                buf[..n].copy_from_slice(&b[..n]);
+                buf[width - 1] = b'\n';
+                let _ = f.write_at(&buf, offset);
+            }
+        }
+    });
+}
+
+/// Record the case this worker starts (case seed 0 = idle).
+pub fn inflight_case(cs: u64, index: u64) {
+    inflight_write(0, &format!("{cs} {index}"), 48);
+    if PANICS_IN_CASE.with(|c| c.replace(0)) > 0 {
+        inflight_write(48, "", 400);
+        inflight_write(448, "", 400);
+    }
 }
 
 /// Install a silent panic hook that remembers the location of the last panic of this thread.
@@ -30,6 +67,10 @@ pub fn install_panic_hook() {
                 format!("{}{}:{}", if own { "harness:" } else { "" }, f, l.line())
             })
             .unwrap_or_default();
+        let msg = info.payload().downcast_ref::<&str>().map(|s| s.to_string()).or_else(|| info.payload().downcast_ref::<String>().cloned()).unwrap_or_default();
+        // first and last panic of the current case
+        let nth = PANICS_IN_CASE.with(|c| c.replace(c.get() + 1));
+        inflight_write(if nth == 0 { 48 } else { 448 }, &format!("{loc} {}", msg.replace('\n', " ")), 400);
         LAST_PANIC_LOC.with(|c| *c.borrow_mut() = loc);
         if std::env::var_os("RVMON_BT").is_some() {
             eprintln!("{info}\n{}", std::backtrace::Backtrace::force_capture());
